@@ -51,6 +51,14 @@ theorem stops_at_first_failure {α : Type} (f : α → SState → SState × Res)
     runCmds f (pre ++ bad :: post) s 0 = ((f bad s1).1, (f bad s1).2, 0 + pre.length) :=
   Ss.stops_at_first_failure f pre bad post s s1 0 h hb
 
+/-- **the script front end over the total model is the same front end** (`deployX`, Algo/ScriptHoles.lean: what the driver follows
+    on graphs beyond the limits, after a panic or with slots removed by `join`): on a graph without removed slots, for a script
+    every command of which parses, when `deploy` runs to its end `deployX` ends in the same graph (no slot removed), with the same
+    variable table and the same count (Algo/ScriptAgree.lean) -/
+theorem total_front_end_agrees (text : List Char) (prog : List (ACmd Label Hex))
+    (hp : (commands isWs text).map (parseCmd isWs pV pL pD) = prog.map some) (g : G Label Hex) (s' : SState) (k : Nat)
+    (h : deploy text g = (s', .ok, k)) : deployX text ⟨g, []⟩ = (lift s', .ok, k) := deployX_agrees text prog hp g s' k h
+
 /-! non-vacuity: a script with comments, a variable, a ν-prefix and data with separators -/
 example : (deploy "ADD(0); # c\n ADD( $x );BIND(ν0,$x ,foo) ;\n PUT($x, d0-bf 01);".toList (empty 4 5)).2 = (.ok, 4) := by
   decide +kernel
